@@ -486,8 +486,9 @@ def default_sampler(c, rng):
         tag = kind if isinstance(kind, str) else getattr(kind, "tag", None)
         if tag in ("real", "posreal"):
             r = rng.random()
-            if r < 0.15:
-                v = rng.choice([0.0, 1.0, 0.5, 0.25, 2.0, -1.0])
+            special = [x for x in (0.0, 1.0, 0.5, 0.25, 2.0, -1.0) if lo <= x <= hi]     # (only inside the stated domain)
+            if r < 0.15 and special:
+                v = rng.choice(special)
             else:
                 v = rng.uniform(lo, hi)
             if tag == "posreal":
